@@ -356,42 +356,60 @@ def evaluate(case, dyn=None, st=None):
     if st.exc is not None:
         info["lian_exc"] = st.exc
         return out, info
-    # reachability of dynamic events through statically present and analysed edges
+    # Which dynamic events are demanded?  P3 is context-sensitive by call path, so the dynamic chain root..event is
+    # compared with the call paths of the frames P3 analysed.
+    #   path-demanded : the caller's frame was analysed under exactly the event's dynamic chain (or the caller is a root)
+    #   site-demanded : every edge of the chain is stored and analysed under its call site, but not under this very path
     n = len(events)
-    ok = [False] * n         # event's own edge is stored, analysed, and its chain is ok
-    chain = [False] * n      # every edge above the event is stored and analysed (so the event is demanded)
+    analysed_paths = set()
+    for mid, site, path in st.frames:
+        mp = tuple(st.map_site(t) for t in path)
+        if all(x is not None for x in mp):
+            analysed_paths.add(mp)
+    paths = [None] * n       # dynamic chain as a tuple of edges
+    pdem = [False] * n       # path-demanded
+    sdem = [False] * n       # site-demanded (weaker)
+    pana = [False] * n       # the event's callee frame was analysed under exactly this chain
+    sana = [False] * n       # chain site-demanded, edge stored and analysed under its call site (some path)
     cyc = [0] * n            # CallPath.count_cycles() of the dynamic chain root..event (P3's recursion bound)
     visited = [None] * n
     for i, (e, parent) in enumerate(events):
         if parent == -1:
-            chain[i] = True
-            seen, c = frozenset(), 0
+            pdem[i] = sdem[i] = True
+            seen, c, pp = frozenset(), 0, ()
         elif parent >= 0:
-            chain[i] = ok[parent]
-            seen, c = visited[parent], cyc[parent]
+            pdem[i] = pana[parent]
+            sdem[i] = sana[parent]
+            seen, c, pp = visited[parent], cyc[parent], paths[parent]
         else:
-            chain[i] = False
-            seen, c = frozenset(), 0
+            seen, c, pp = frozenset(), 0, ()
         if e[2] in seen:
             c += 1
         cyc[i] = c
         visited[i] = seen | {e[0], e[2]}
-        ok[i] = chain[i] and (e in st.sites) and (e in st.frame_sites)
-    primary_missing = {}     # edge -> min cycle count over its demanded occurrences
+        paths[i] = pp + (e,)
+        pana[i] = pdem[i] and paths[i] in analysed_paths
+        sana[i] = sdem[i] and (e in st.sites) and (e in st.frame_sites)
+    primary_missing = {}     # edge -> min cycle count over its path-demanded occurrences
+    context_missing = set()  # missing edges that are only site-demanded
     secondary = set()
     not_analysed = {}
     for i, (e, parent) in enumerate(events):
         if e in st.sites:
-            if chain[i] and e not in st.frame_sites:
+            if sdem[i] and e not in st.frame_sites:
                 not_analysed[e] = min(not_analysed.get(e, 1 << 30), cyc[i])
             continue
-        if chain[i]:
+        if pdem[i]:
             primary_missing[e] = min(primary_missing.get(e, 1 << 30), cyc[i])
+        elif sdem[i]:
+            context_missing.add(e)
         else:
             secondary.add(e)
-    secondary -= set(primary_missing)
+    context_missing -= set(primary_missing)
+    secondary -= set(primary_missing) | context_missing
     info["secondary_missing"] = len(secondary)
     info["primary_missing"] = sorted(primary_missing)
+    info["context_missing"] = sorted(context_missing)
     info["not_analysed"] = sorted(not_analysed)
     info["present"] = sum(1 for e in edges if e in st.sites)
 
@@ -414,6 +432,11 @@ def evaluate(case, dyn=None, st=None):
         out.append(((ID, tag, k, via),
                     "dynamic call %s (kind %s, via %s%s) is in no stored path of call_paths_p3 (%d such edge(s) in this project)" % (
                         fmt_edge(es[0]), k, via, p2s, len(es))))
+    if context_missing:
+        es = sorted(context_missing)
+        out.append(((ID, tag, "context-not-analysed", "-"),
+                    "dynamic call %s%s is in no stored path; its caller was analysed, but not under the call path of this "
+                    "execution (that path is stored without an analysed frame), %d such edge(s)" % (fmt_edge(es[0]), p2s, len(es))))
     tag = "callee-not-analysed-p2" if case.get("p2") else "callee-not-analysed"
     by_kind = {}
     for e in sorted(not_analysed):
@@ -705,7 +728,7 @@ def main(tier, seed, t0):
     if tier == "quick":
         total, p2_pct = 416, 0
     else:
-        total, p2_pct = 16000, 20
+        total, p2_pct = 12000, 20
     nsh = max(1, common.NCPU) * (1 if tier == "quick" else 4)
     per = (total + nsh - 1) // nsh
     args = [(common.shard_seed(seed, i), per, avoid, p2_pct, True) for i in range(nsh)]
